@@ -74,6 +74,7 @@ def errStr : Err → String
   | .clientId => "client-id" | .fields => "fields" | .prev => "prev" | .sig => "sig" | .noAlloc => "no-alloc"
   | .early => "early" | .late => "late" | .notInAlloc => "not-in-alloc" | .noBlobber => "no-blobber"
   | .insufficient => "insufficient" | .distribute => "distribute" | .overflow => "overflow" | .unsupported => "unsupported"
+  | .range => "range"
 
 def lockErrStr : LockErr → String
   | .minLock => "min-lock" | .zeroLock => "zero-lock" | .noTokens => "no-tokens" | .balance => "balance"
